@@ -458,3 +458,75 @@ def ret_agg_blocks(fn, adt, variant):
             if s["s"] == "assign" and s["rhs"]["rv"] == "agg" and s["rhs"].get("adt") == adt and s["rhs"].get("variant") == variant:
                 out.append((b, s))
     return out
+
+
+def leaf_origins(prog, fn, op, at=None, depth=0, _seen=None):
+    """Transitive data origins of an operand: expands arithmetic, casts and identity/conversion calls down to
+    params / constants / other call results."""
+    out = []
+    seen = _seen if _seen is not None else set()
+    for o in origins(prog, fn, op, at=at):
+        k = (o.kind, o.block, repr(o.data)[:80], o.proj)
+        if k in seen or depth > 14:
+            continue
+        seen.add(k)
+        if o.kind == "bin":
+            out += leaf_origins(prog, fn, o.data["a"], o.block, depth + 1, seen)
+            out += leaf_origins(prog, fn, o.data["b"], o.block, depth + 1, seen)
+        elif o.kind == "un":
+            out += leaf_origins(prog, fn, o.data["a"], o.block, depth + 1, seen)
+        elif o.kind == "agg":
+            for x in o.data["ops"]:
+                out += leaf_origins(prog, fn, x, o.block, depth + 1, seen)
+        elif o.kind == "call" and o.data.get("args") and (
+                (o.data.get("callee") or "") in CONV_CALLEES
+                or (o.data.get("callee") or "").startswith(("core::result::Result", "core::option::Option", "core::num::"))
+                or (o.data.get("callee") or "").startswith("abyssiniandb::filedb::inner::semtype::")):
+            out.append(o)
+            for x in o.data["args"]:
+                out += leaf_origins(prog, fn, x, o.block, depth + 1, seen)
+        else:
+            out.append(o)
+    return out
+
+
+def field_reads(prog, field_suffix, crate="abyssiniandb"):
+    """[(fn, block, place)] for every read (rvalue use / ref / discriminant / call arg) of a place whose projection
+    contains a field element ending with field_suffix."""
+    out = []
+    for fn in prog.fns.values():
+        if fn.crate != crate:
+            continue
+        for b, blk in enumerate(fn.blocks):
+            if blk["cleanup"]:
+                continue
+            for s in blk["stmts"]:
+                if s["s"] != "assign":
+                    continue
+                for op in _rv_operands(s["rhs"]):
+                    if op.get("k") in ("cp", "mv") and any(e.startswith("f:") and e.endswith(field_suffix) for e in op["pl"]["p"]):
+                        out.append((fn, b, op["pl"]))
+            t = blk["term"]
+            if t and t["t"] == "call":
+                for op in t["args"]:
+                    if op.get("k") in ("cp", "mv") and any(e.startswith("f:") and e.endswith(field_suffix) for e in op["pl"]["p"]):
+                        out.append((fn, b, op["pl"]))
+            if t and t["t"] == "switch" and t["discr"].get("k") in ("cp", "mv"):
+                if any(e.startswith("f:") and e.endswith(field_suffix) for e in t["discr"]["pl"]["p"]):
+                    out.append((fn, b, t["discr"]["pl"]))
+    return out
+
+
+def field_stores(prog, field_suffix, crate="abyssiniandb"):
+    """[(fn, block, stmt)] for every assignment whose lhs ends in the given field, plus aggregate initialisers."""
+    out = []
+    for fn in prog.fns.values():
+        if fn.crate != crate:
+            continue
+        for b, blk in enumerate(fn.blocks):
+            if blk["cleanup"]:
+                continue
+            for s in blk["stmts"]:
+                if s["s"] == "assign" and s["lhs"]["p"] and s["lhs"]["p"][-1].startswith("f:") and s["lhs"]["p"][-1].endswith(field_suffix):
+                    out.append((fn, b, s))
+    return out
